@@ -157,6 +157,11 @@ func (s *ServerDnsListener) closeConnection(u *userConnection) error {
 		return nil
 	}
 
+	if s.connections[u.UserId] != u {
+		// The slot has been handed to another session since; this one is already retired
+		return nil
+	}
+
 	log.Debugf("Closing server-side connection for user #%d", u.UserId)
 
 	// Remove connection from our list
